@@ -476,3 +476,46 @@ def _c19c():
     h1 = S.hash_pair(u1, S.hash_pair(t1, S.hash_pair(S.hash_num(r1), S.HASH_NIL)))
     h2 = S.hash_pair(u2, S.hash_pair(t2, S.hash_pair(S.hash_num(r2), S.HASH_NIL)))
     return [u1 == u2, t1 == t2, r1 == r2], h1 == h2
+
+
+# C09 / C10 / C11 ---------------------------------------------------------------------
+@lemma("C09/rate-times-inverse-rate-is-one", ["C09"],
+       "rate = t/m and inverse_rate = m/t with t, m > 0: the product is "
+       "exactly one")
+def _c09a():
+    t, m = R("t"), R("m")
+    return [t > 0, m > 0], (t / m) * (m / t) == 1
+
+
+@lemma("C09/stored-amount-accuracy", ["C09", "C11"],
+       "the stored term amount k/10^6 with k = x*10^6 rounded (contract of "
+       "ExchangeRate.__init__) differs from x = true rate times unit multiple "
+       "by less than 10^-6, and by at most half of that under the half modes")
+def _c09b():
+    x, k = R("x"), I("k")
+    m = I("mode")
+    half = z3.Or(m == MODE_ID["ROUND_HALF_UP"], m == MODE_ID["ROUND_HALF_DOWN"],
+                 m == MODE_ID["ROUND_HALF_EVEN"])
+    err = S.absr(z3.ToReal(k) / 1000000 - x)
+    return [m >= 0, m < 8, S.round_rel(x * 1000000, m, k)], \
+        z3.And(err < z3.RealVal("1/1000000"),
+               z3.Implies(half, err <= z3.RealVal("1/2000000")))
+
+
+@lemma("C09/triangulation-direction", ["C09", "C11"],
+       "with rate(x->y) = worth(x)/worth(y): (a->b)*(b->c) and (a->c)/(a->b), "
+       "(a->b)/(c->b) are the rates a->c, b->c, a->c")
+def _c09c():
+    wa, wb, wc = R("wa"), R("wb"), R("wc")
+    ab, bc, ac, cb = wa / wb, wb / wc, wa / wc, wc / wb
+    return [wa > 0, wb > 0, wc > 0], z3.And(ab * bc == ac, ac / ab == bc,
+                                            ab / cb == ac)
+
+
+@lemma("C11/inverse-and-quotient-of-base-rates", ["C11"],
+       "with base->x stored as rate r_x = worth(base)/worth(x): x->base is "
+       "1/r_x and x->y is r_y/r_x")
+def _c11a():
+    wb, wx, wy = R("wb"), R("wx"), R("wy")
+    rx, ry = wb / wx, wb / wy
+    return [wb > 0, wx > 0, wy > 0], z3.And(1 / rx == wx / wb, ry / rx == wx / wy)
